@@ -8,6 +8,7 @@ through the raw parent field.  Full reachability equivalence relies on the C01 i
 from __future__ import annotations
 
 import ast
+from typing import List
 
 from sa import facts
 from sa.cfg import cfg_of
@@ -253,10 +254,30 @@ def detach_paired(ctx, o):
             o.undecided(f, c, c, "detach outside a loop over a saved copy of the old children")
             continue
         ds = [d for d in fl.defs_of(fo.iter.id) if d.kind == 'assign']
-        copy_ok = len(ds) == 1 and (match(f"[$x for $x in {s}._Task__children]", ds[0].value) or match(f"list({s}._Task__children)", ds[0].value)
-                                    or match(f"{s}._Task__children.copy()", ds[0].value) or match(f"{s}._Task__children[:]", ds[0].value))
+        hops = 0
+        while len(ds) == 1 and isinstance(ds[0].value, ast.Name) and hops < 5:
+            # `old = released` (a spliced helper result / a renamed local): follow the alias to its own single definition
+            nxt = fl.defs_of(ds[0].value.id)
+            if len(nxt) != 1 or nxt[0].kind != 'assign' or not cfg.dominates(nxt[0].node, ds[0].node):
+                break
+            ds, hops = nxt, hops + 1
+        copy_ok = len(ds) == 1 and _is_children_copy(ds[0].value, s)
+        if not copy_ok and len(ds) == 1:
+            # the snapshot may be taken by a private helper (`old = self.__release_children()`): follow it
+            r = _snapshot_helper(prog, f, ds[0].value, s)
+            if r == 'late':
+                o.refute(f, ds[0].stmt, ds[0].stmt, "the old children are saved after the list was already cleared")
+                continue
+            copy_ok = r == 'ok'
         if not copy_ok:
-            o.refute(f, fo, fo.iter, f"`{fo.iter.id}` is not a copy of the old child list taken before it is cleared")
+            if len(ds) == 1 and _mentions_children(ds[0].value, s) and not any(isinstance(n, ast.Call) and n is not ds[0].value
+                                                                                 for n in ast.walk(ds[0].value)) \
+                    and not isinstance(ds[0].value, ast.Call):
+                o.refute(f, fo, fo.iter, f"`{fo.iter.id}` is not a copy of the old child list taken before it is cleared")
+            elif len(ds) == 1 and match(f"{s}._Task__children", ds[0].value):
+                o.refute(f, fo, fo.iter, f"`{fo.iter.id}` is the child list itself, not a copy taken before it is cleared")
+            else:
+                o.undecided(f, fo, fo.iter, f"`{fo.iter.id}`: cannot tell whether it is a copy of the old child list taken before it is cleared")
             continue
         if clears and not cfg.dominates(ds[0].node, cfg.node_containing(clears[0])):
             o.refute(f, ds[0].stmt, ds[0].stmt, "the old children are saved after the list was already cleared")
@@ -288,6 +309,55 @@ def _for_of(f, node):
     return best or f.body[0]
 
 
+def _is_children_copy(v, s) -> bool:
+    return bool(match(f"[$x for $x in {s}._Task__children]", v) or match(f"list({s}._Task__children)", v)
+                or match(f"{s}._Task__children.copy()", v) or match(f"{s}._Task__children[:]", v)
+                or match(f"tuple({s}._Task__children)", v) or match(f"[*{s}._Task__children]", v)
+                or match(f"[$x for $x in {s}.children]", v) or match(f"list({s}.children)", v))
+
+
+def _mentions_children(v, s) -> bool:
+    return any(isinstance(n, ast.Attribute) and n.attr in ('_Task__children', 'children') and isinstance(n.value, ast.Name) and n.value.id == s
+               for n in ast.walk(v))
+
+
+def _snapshot_helper(prog, f, v, s) -> str:
+    """`self.__helper()` whose result is a copy of the helper's own child list taken before the helper clears it:
+    'ok' | 'late' (copied after the clear) | '' (not recognised)"""
+    if not (isinstance(v, ast.Call) and isinstance(v.func, ast.Attribute) and isinstance(v.func.value, ast.Name) and v.func.value.id == s
+            and not v.args and not v.keywords):
+        return ''
+    g = prog.find_method('Task', unmangle(v.func.attr))
+    if g is None or g is f or not g.self_name:
+        return ''
+    gs = g.self_name
+    gfl = flow_of(g)
+    gcfg = gfl.cfg
+    rets = [n for n in walk_no_nested(g.node) if isinstance(n, ast.Return)]
+    if len(rets) != 1 or rets[0].value is None:
+        return ''
+    rv = rets[0].value
+    copy_node = None
+    if _is_children_copy(rv, gs):
+        copy_node = gcfg.node_of(rets[0])
+    elif isinstance(rv, ast.Name):
+        ds = [d for d in gfl.defs_of(rv.id)]
+        if len(ds) == 1 and ds[0].kind == 'assign' and _is_children_copy(ds[0].value, gs):
+            # the returned list must not be changed afterwards
+            if any(isinstance(n, ast.Call) and isinstance(n.func, ast.Attribute) and isinstance(n.func.value, ast.Name) and n.func.value.id == rv.id
+                   and n.func.attr in ('append', 'remove', 'clear', 'pop', 'extend', 'insert') for n in walk_no_nested(g.node)):
+                return ''
+            copy_node = ds[0].node
+    if copy_node is None:
+        return ''
+    for c in facts.calls_named(g, 'clear'):
+        if match(f"{gs}._Task__children.clear()", c):
+            cn = gcfg.node_containing(c)
+            if cn is not None and not gcfg.dominates(copy_node, cn):
+                return 'late'
+    return 'ok'
+
+
 def owner_guards(ctx, o, eff):
     prog = ctx.prog
     from .c05 import _reaches_under
@@ -304,28 +374,95 @@ def owner_guards(ctx, o, eff):
               AND(N(A('wbsnone(self)')), N(A('wbsnone(elem)')), A('wbsneq(elem,self)')), writes, eff, True, mode_filter=_reaches_under)
 
 
+def _closure(ctx, f, depth=4):
+    """f and the private helpers it (transitively) calls, nearest first (public API such as property setters is not a helper)"""
+    out, todo = [f], [(f, 0)]
+    while todo:
+        g, d = todo.pop(0)
+        if d >= depth:
+            continue
+        for ci in ctx.cg.calls_in(g):
+            for t in ci.targets:
+                if t is not None and t not in out and not isinstance(t.node, ast.Lambda) and t.kind not in ('getter', 'setter') and \
+                        t.name.startswith('_') and not (t.name.startswith('__') and t.name.endswith('__')):
+                    out.append(t)
+                    todo.append((t, d + 1))
+    return out
+
+
+def _unresolved_calls(ctx, funcs) -> List[str]:
+    """calls on objects of the package whose target the call graph could not resolve (a delegate the rule cannot look into)"""
+    out = []
+    for g in funcs:
+        for ci in ctx.cg.calls_in(g):
+            if not ci.targets and not ci.resolved and isinstance(ci.node, ast.Call) and isinstance(ci.node.func, ast.Attribute) and \
+                    isinstance(ci.node.func.value, ast.Attribute) and ci.node.func.value.attr.startswith('_') and \
+                    ci.node.func.attr.startswith('_'):
+                out.append(src(ci.node)[:40])
+    return out
+
+
+def _delegates(ctx, o, f, found_in, label, ok_note, miss_msg, in_place=None):
+    """f must end in the delegation `found_in(g)` looks for, in f itself or in a private helper it calls; a miss is a refutation
+    only with a closed-world argument (everything f calls was looked into) or when an in-place removal was positively seen"""
+    funcs = _closure(ctx, f)
+    for g in funcs:
+        hit = found_in(g)
+        if hit is not None:
+            o.site(f, hit if g is f else f.node, ok_note + ('' if g is f else f" (in {g.name})"))
+            return True
+    bad = in_place(f) if in_place is not None else None
+    if bad is not None:
+        o.refute(f, bad, label, miss_msg + f" (`{src(bad)[:50]}` changes the list directly)")
+        return False
+    unk = _unresolved_calls(ctx, funcs)
+    if unk:
+        o.undecided(f, f.node, label, miss_msg + f"; it may happen behind `{unk[0]}`, which the rule cannot resolve")
+    else:
+        o.refute(f, f.node, label, miss_msg)
+    return False
+
+
 def removal_paths(ctx, o):
     prog = ctx.prog
+
+    def children_store(recv_pat):
+        def find(g):
+            for st, tgt, val in facts.attr_stores(g, 'children'):
+                if g.cls == f.cls and match(recv_pat, tgt.value):
+                    return st
+                if g.cls != f.cls or g is not f and g.self_name and isinstance(tgt.value, ast.Name):
+                    return st
+            return None
+        return find
+
+    def list_cut(g):
+        for n in walk_no_nested(g.node):
+            if isinstance(n, ast.Call) and isinstance(n.func, ast.Attribute) and n.func.attr in ('remove', 'pop') and match("self._list", n.func.value):
+                return n
+            if isinstance(n, ast.Delete) and any(isinstance(t, ast.Subscript) and match("self._list", t.value) for t in n.targets):
+                return n
+        return None
     f = prog.func('task._ChildrenList.remove')
-    ok = [st for st, tgt, val in facts.attr_stores(f, 'children') if match("self._ChildrenList__parent", tgt.value)]
-    if ok:
-        o.site(f, ok[0], "list removal = children assignment on the owner")
-    else:
-        o.refute(f, f.node, 'remove', "_ChildrenList.remove does not go through the owner's children assignment (no detach)")
+    _delegates(ctx, o, f, children_store("self._ChildrenList__parent"), 'remove', "list removal = children assignment on the owner",
+               "_ChildrenList.remove does not go through the owner's children assignment (no detach)", in_place=list_cut)
     f = prog.func('wbs.WBS.roots.setter')
-    ok = [st for st, tgt, val in facts.attr_stores(f, 'children') if match("self._WBS__root", tgt.value)]
-    if ok:
-        o.site(f, ok[0], "roots assignment = children assignment on the root task")
-    else:
-        o.refute(f, f.node, 'roots', "WBS.roots assignment bypasses the root task's children assignment")
+    _delegates(ctx, o, f, children_store("self._WBS__root"), 'roots', "roots assignment = children assignment on the root task",
+               "WBS.roots assignment bypasses the root task's children assignment")
     f = prog.func('wbs.WBS.__remove')
-    exr = Expander(prog, f, ctx.typer, inline=False)
-    if any(match("$c.children.remove($t)", exr.expand(n)) for n in facts.calls_named(f, 'remove')):
-        o.site(f, f.node, "WBS.remove -> children.remove")
-    else:
-        o.refute(f, f.node, '__remove', "WBS.remove does not remove through the child list facade")
+
+    def facade_remove(g):
+        exr = Expander(prog, g, ctx.typer, inline=False)
+        for n in facts.calls_named(g, 'remove'):
+            if match("$c.children.remove($t)", exr.expand(n)) or match("$c.roots.remove($t)", exr.expand(n)):
+                return n
+        return None
+    _delegates(ctx, o, f, facade_remove, '__remove', "WBS.remove -> children.remove", "WBS.remove does not remove through the child list facade")
     f = prog.func('task._TaskList.remove_all')
-    if any(match("self.remove($t)", n) for n in ast.walk(f.node)):
-        o.site(f, f.node, "remove_all -> remove")
-    else:
-        o.refute(f, f.node, 'remove_all', "remove_all does not remove through remove()")
+
+    def self_remove(g):
+        for n in walk_no_nested(g.node):
+            if isinstance(n, ast.Call) and match("self.remove($t)", n):
+                return n
+        return None
+    _delegates(ctx, o, f, self_remove, 'remove_all', "remove_all -> remove", "remove_all does not remove through remove()")
